@@ -21,7 +21,9 @@ CFG = {'module': 'Dnp3.Props.C04',
  'assumptions': ['tokio timer and Notify semantics; xxh64 collision-free on compared fragments (model '
                  'compares octets)'],
  'level_text': 'Lean theorems over the session model (match_operate as an iff; OPERATE actuates only with a '
-               'recorded matching select; where the select state comes from; frame-id law) for all states '
+               'recorded matching select; where the select state comes from; frame-id law; trace theorem '
+               'operate_needs_select: an actuation implies its own fresh successful SELECT with nothing but '
+               'retransmissions of that SELECT in between, for runs shorter than 2^32 inputs) for all states '
                'and histories; tie: differential correspondence of the real OutstationTask vs the model on '
                "generated control histories + trace monitor stating the property on the implementation's "
                'trace',
